@@ -19,6 +19,7 @@ import (
 	"go/constant"
 	"go/token"
 	"go/types"
+	"reflect"
 	"sort"
 	"strings"
 	"unicode"
@@ -156,17 +157,18 @@ type AEvent struct {
 }
 
 type AState struct {
-	heap   map[int]*AObj
-	nextID *int
-	Trace  []AEvent
-	visits map[*ssa.BasicBlock]int
-	depth  int
-	steps  int
+	globals map[*ssa.Global]*AObj
+	heap    map[int]*AObj
+	nextID  *int
+	Trace   []AEvent
+	visits  map[*ssa.BasicBlock]int
+	depth   int
+	steps   int
 }
 
 func newAState() *AState {
 	n := 0
-	return &AState{heap: map[int]*AObj{}, nextID: &n, visits: map[*ssa.BasicBlock]int{}}
+	return &AState{heap: map[int]*AObj{}, nextID: &n, visits: map[*ssa.BasicBlock]int{}, globals: map[*ssa.Global]*AObj{}}
 }
 
 func (s *AState) newObj(t types.Type, site ssa.Value) *AObj {
@@ -179,7 +181,10 @@ func (s *AState) newObj(t types.Type, site ssa.Value) *AObj {
 // fork copies the state; objects are copied so that the two paths evolve
 // independently. Pointers inside values are re-targeted lazily through IDs.
 func (s *AState) fork() *AState {
-	t := &AState{heap: map[int]*AObj{}, nextID: s.nextID, depth: s.depth, steps: s.steps, visits: map[*ssa.BasicBlock]int{}}
+	t := &AState{heap: map[int]*AObj{}, nextID: s.nextID, depth: s.depth, steps: s.steps, visits: map[*ssa.BasicBlock]int{}, globals: make(map[*ssa.Global]*AObj, len(s.globals))}
+	for g, o := range s.globals {
+		t.globals[g] = o
+	}
 	for id, o := range s.heap {
 		c := &AObj{ID: o.ID, Type: o.Type, Fields: make(map[int]AVal, len(o.Fields)), Len: o.Len, Site: o.Site, Extern: o.Extern}
 		for k, v := range o.Fields {
@@ -233,6 +238,7 @@ type AInterp struct {
 	MaxSteps  int
 	MaxPaths  int
 	paths     int
+	InitMode  bool // interpreting package initialisation: unknown globals are zero-valued objects
 }
 
 func (w *World) newInterp(h AHooks) *AInterp {
@@ -284,10 +290,20 @@ func (fr *aFrame) get(ai *AInterp, st *AState, v ssa.Value) AVal {
 		return aUnknown(v)
 	case *ssa.Global:
 		// a global is a pointer to its storage
+		if o, ok := st.globals[x]; ok {
+			return AVal{Kind: avPtr, Obj: o, Field: -1}
+		}
 		if ai.hooks.Global != nil {
 			if o := ai.hooks.Global(st, x); o != nil {
+				st.globals[x] = o
 				return AVal{Kind: avPtr, Obj: o, Field: -1}
 			}
+		}
+		if ai.InitMode {
+			// package initialisation starts from zeroed variables
+			o := st.newObj(x.Type().(*types.Pointer).Elem(), x)
+			st.globals[x] = o
+			return AVal{Kind: avPtr, Obj: o, Field: -1}
 		}
 		return aUnknown(v)
 	}
@@ -618,6 +634,10 @@ func (ai *AInterp) eval(fr *aFrame, st *AState, v ssa.Value) AVal {
 			if a.isConst() {
 				return aConst(constant.UnaryOp(token.SUB, a.C, 0))
 			}
+		case token.XOR:
+			if a.isConst() && a.C.Kind() == constant.Int {
+				return aConst(constant.UnaryOp(token.XOR, a.C, 0))
+			}
 		}
 		return aUnknown(x)
 	case *ssa.BinOp:
@@ -854,7 +874,11 @@ func (ai *AInterp) call(fr *aFrame, st *AState, site ssa.CallInstruction) []AOut
 			return []AOutcome{{St: st, Ret: res}}
 		}
 	}
-	if callee == nil || !ai.w.inPkg(callee) || len(callee.Blocks) == 0 {
+	own := callee != nil && ai.w.inPkg(callee)
+	if callee != nil && !own && callee.Synthetic != "" && callee.Object() != nil && callee.Object().Pkg() == ai.w.Types {
+		own = true // wrapper of a promoted method of this package
+	}
+	if callee == nil || !own || len(callee.Blocks) == 0 {
 		var v ssa.Value
 		if sv, ok := site.(ssa.Value); ok {
 			v = sv
@@ -872,6 +896,16 @@ func (ai *AInterp) external(callee *ssa.Function, args []AVal, v ssa.Value) AVal
 		case "strings.ToLower":
 			if s, ok := args[0].Str(); ok {
 				return aStr(strings.ToLower(s))
+			}
+		case "reflect.ValueOf":
+			if len(args) == 1 && args[0].Dyn != nil {
+				return AVal{Kind: avUnknown, Dyn: args[0].Dyn, Tag: "reflect.Value"}
+			}
+		case "(reflect.Value).Kind":
+			if len(args) == 1 && args[0].Tag == "reflect.Value" && args[0].Dyn != nil {
+				if k, ok := reflectKindOf(args[0].Dyn); ok {
+					return aInt(int64(k))
+				}
 			}
 		case "unicode.Is":
 			if t, ok := args[0].Any.(*unicode.RangeTable); ok {
@@ -1005,4 +1039,89 @@ func sortedKeysStr(m map[string]bool) []string {
 	}
 	sort.Strings(s)
 	return s
+}
+
+// initState: the abstract state after package initialisation, as far as it
+// is a straight line of constant stores (the enumeration structs flagsEnum,
+// builderProps, queryProps, function-valued variables). Paths that fork
+// (initialisers with unknown conditions) are not followed: the first outcome
+// that completes is taken, and whatever it does not know stays unknown.
+func (w *World) initState() *AState {
+	if w.initStateCache != nil {
+		return w.initStateCache.fork()
+	}
+	st := newAState()
+	var initFn *ssa.Function
+	for _, fn := range w.AllFuncs {
+		if fn.Parent() == nil && fn.Name() == "init" && fn.Pkg == w.SSA {
+			initFn = fn
+		}
+	}
+	if initFn != nil {
+		ai := w.newInterp(AHooks{})
+		ai.InitMode = true
+		ai.MaxDepth = 3
+		ai.MaxSteps = 200000
+		outs := ai.Exec(initFn, nil, nil, st)
+		for _, o := range outs {
+			if !o.Cut && !o.Panicked {
+				st = o.St
+				break
+			}
+		}
+	}
+	// only constants and function values are kept: everything else a run may not rely on
+	for g, o := range st.globals {
+		keep := false
+		for _, v := range o.Fields {
+			if v.isConst() || v.Kind == avFunc {
+				keep = true
+			}
+		}
+		if !keep {
+			delete(st.globals, g)
+			continue
+		}
+		for k, v := range o.Fields {
+			if !v.isConst() && v.Kind != avFunc {
+				delete(o.Fields, k)
+			}
+		}
+		o.Extern = true
+	}
+	w.initStateCache = st
+	return st.fork()
+}
+
+func reflectKindOf(t types.Type) (reflect.Kind, bool) {
+	switch u := t.Underlying().(type) {
+	case *types.Basic:
+		switch u.Kind() {
+		case types.Bool:
+			return reflect.Bool, true
+		case types.Int:
+			return reflect.Int, true
+		case types.Int64:
+			return reflect.Int64, true
+		case types.Float64:
+			return reflect.Float64, true
+		case types.Float32:
+			return reflect.Float32, true
+		case types.String:
+			return reflect.String, true
+		}
+	case *types.Pointer:
+		return reflect.Ptr, true
+	case *types.Struct:
+		return reflect.Struct, true
+	case *types.Slice:
+		return reflect.Slice, true
+	case *types.Map:
+		return reflect.Map, true
+	case *types.Interface:
+		return reflect.Interface, true
+	case *types.Signature:
+		return reflect.Func, true
+	}
+	return 0, false
 }
